@@ -8,6 +8,7 @@ import FitProofs.EncodeItems
 import FitProofs.EncodeFile
 import FitProofs.DecodeAccepts
 import FitProps.C04
+import FitProofs.IntegFrame
 /-!
   C05 — Encode emits a well-formed, self-describing FIT stream.
 -/
@@ -291,5 +292,42 @@ theorem encoder_sizes_multiple (pm : PMsg) (pf : PField) (h : fieldWF pm pf = tr
       have e : Base.size (tcBase pf.tcode) % 256 = Base.size (tcBase pf.tcode) := Nat.mod_eq_of_lt (by omega)
       rw [e]
       exact ⟨Nat.mod_self _, hpos, by omega⟩
+
+/-- **`CheckIntegrity` accepts whatever `Encode` writes, for every File** with a legal header (12 or 14
+    bytes, the ".FIT" tag, a protocol version the decoder supports): the header declares the number of
+    record bytes that follow, the header CRC (when there is one) and the trailing file CRC are the ones
+    the integrity pass recomputes — no hypothesis on the messages (`integ_accepts_frame`: the integrity
+    pass only hashes the record bytes). -/
+theorem encode_passes_integrity_any (P : Profile) (arch : Endian) (f f' : FileSt) (bs : Bytes)
+    (h : encode P arch f = .ok bs f') (hs : f.hdr.size = headerSizeNoCRC ∨ f.hdr.size = headerSizeCRC)
+    (ht : f.hdr.dtype = fitTag) (hp : f.hdr.proto < 256 ∧ f.hdr.proto / 16 ≤ protoMajorMax)
+    (hsmall : bs.length < 4294967296) (o : Opts) (g : Globals) (tail : Bytes) (stop : Stop) :
+    (decodeSpec P o .crcOnly g (bs ++ tail) stop).1.success := by
+  unfold encode at h
+  cases hia : P.initAns (fileTypeOf f) with
+  | format => rw [hia] at h; cases h
+  | notsupported => rw [hia] at h; cases h
+  | container j =>
+    rw [hia] at h
+    simp only at h
+    cases hci : f.cidx with
+    | none => rw [hci] at h; cases h
+    | some i =>
+      rw [hci] at h
+      simp only at h
+      split at h
+      · cases h
+      · cases hbody : encodeBody P arch f (P.containers.getD i default) with
+        | error e => rw [hbody] at h; cases e <;> cases h
+        | ok body =>
+          rw [hbody] at h
+          simp only at h
+          injection h with h1 _
+          have hblen : body.length < 4294967296 := by
+            rw [← h1] at hsmall
+            simp only [finishEncode, List.length_append] at hsmall
+            omega
+          rw [← h1, finishEncode_frame f body hs ht hblen]
+          exact integ_accepts_frame P o _ g _ _ body tail stop hp.1 hp.2 hblen
 
 end Fit.Props.C05
